@@ -54,7 +54,9 @@ pub(crate) fn fake_full_tx(
             Some(result)
         }
     };
-    let bootstraps = get_bootstraps(&tx_builder.inputs);
+    // Byron collateral inputs need their bootstrap witness too
+    let mut bootstraps = get_bootstraps(&tx_builder.inputs);
+    bootstraps.extend(get_bootstraps(&tx_builder.collateral));
     let bootstrap_keys = match bootstraps.len() {
         0 => None,
         _x => {
